@@ -119,7 +119,7 @@ def gen_amdf(rng, tier):
 def gen_envelope(rng, tier):
     xs = _seq(rng, _len(rng, tier), rng.random() < 0.5)
     cutoff = rng.choice([math.pi / 512, 0.5, 1.0, rng.uniform(0.01, 3.0), rng.uniform(0.01, 3.0)])
-    return {"entry": "envelope", "cutoff": cutoff, "xs": _E(xs), "lp": rng.choice(["default", "pole", "pole", "z", "pole_exp", "z_exp"])}
+    return {"entry": "envelope", "cutoff": cutoff, "xs": _E(xs), "lp": rng.choice(["default", "default", "default", "default", "pole", "z", "pole_exp", "z_exp"])}
 
 
 def gen_clip(rng, tier, combo=None):
